@@ -161,10 +161,14 @@ TTree ==
              \* depth of a node = number of rings it is inside (independent nesting oracle)
              /\ Chk(\A i \in 1..N : Depth(nodes, i) + 1 = lvl[i], "C04", "level_vs_containment", Ev.k)
 
+(* the harness runs every case in a child process; a child that was killed (signal, sanitizer, timeout)  *)
+(* leaves a Crash event: the call did not return, so no postcondition can hold                          *)
+TCrash == Ev.e = "Crash" /\ UNCHANGED <<cs, outs>> /\ Report("ANY", "call_did_not_return", Ev.sig)
+
 Init == l = 1 /\ cs = <<>> /\ outs = <<>>
 Next == /\ l <= Len(Tr)
         /\ l' = l + 1
-        /\ (TCase \/ TOut \/ TExec \/ TExecs \/ TReUnion \/ TTree)
+        /\ (TCase \/ TOut \/ TExec \/ TExecs \/ TReUnion \/ TTree \/ TCrash)
 Spec == Init /\ [][Next]_vars
 Accepted == TLCGet("stats").diameter = Len(Tr) + 1
 =============================================================================
